@@ -1,1 +1,7 @@
 import FlooVerif.Sv
+import FlooVerif.Desc
+import FlooVerif.Net
+import FlooVerif.Hw
+import FlooVerif.Expect
+import FlooVerif.Check
+import FlooVerif.DescJson
